@@ -54,14 +54,20 @@ package bcl
 //@   requires no_nil_option: forall i int :: 0 <= i && i < len(opts) ==> opts[i] != nil
 //@   ensures [C17] error_iff_diagnostic: ((result1 != nil) <==> g.diags > 0) && g.diags >= 0
 //@   ensures result0 != nil
-//@   ensures [C19] complete_when_ok: result1 == nil ==> result0.linePos != nil
+//@   ensures [C19,C09,C06] complete_when_ok: result1 == nil ==> dumpable(result0)
 //@   ghost parsed_err = result1
 //
 //@ func Parse
 //@   requires no_nil_option: forall i int :: 0 <= i && i < len(opts) ==> opts[i] != nil
 //@   ensures [C17] error_iff_diagnostic: ((result1 != nil) <==> g.diags > 0) && g.diags >= 0
 //@   ensures result0 != nil
-//@   ensures complete_when_ok: result1 == nil ==> result0.linePos != nil
+//@   ensures [C09,C06] complete_when_ok: result1 == nil ==> dumpable(result0)
+//
+//@ func LoadProg
+//@   requires no_nil_option: forall i int :: 0 <= i && i < len(opts) ==> opts[i] != nil
+//@   requires reader_given: r != nil
+//@   requires fresh_stream: g.rp == 0 && !g.short && g.rlen >= 0
+//@   ensures [C09,C06] complete_when_ok: result0 != nil && (result1 == nil ==> dumpable(result0))
 //
 //@ func Interpret
 //@   requires no_nil_option: forall i int :: 0 <= i && i < len(opts) ==> opts[i] != nil
